@@ -29,7 +29,7 @@ def main():
         i = a.index("--budget"); budget = a[i + 1]; del a[i:i + 2]
     prop, n, demo_src, demo_dest = a[0], a[1], a[2], a[3]
     test_args = " ".join(a[4:])
-    src = "/tmp/wt/%s/out/%s" % (prop, n)
+    src = os.path.join(os.environ.get("SEED_SRC", "/var/tmp/wave1"), prop, n)
     patch = os.path.join(src, "patch.diff")
     d = tempfile.mkdtemp(prefix="seed-", dir="/var/tmp")
     out = {"property": prop, "n": n}
